@@ -371,6 +371,9 @@ func Main(p *Prop, tier string) int {
 					if lastIdx < 0 {
 						harnessErr = fmt.Sprintf("worker died before starting a case of job %s: %s", job, firstLines(se, 6))
 					}
+					if strings.HasSuffix(sig, "@ ?") && !strings.Contains(se, "/repo/") {
+						harnessErr = fmt.Sprintf("worker crashed outside the code under test (job %s, case %d): %s", job, lastIdx, firstLines(se, 12))
+					}
 					groups = append(groups, &group{Sig: sig, Atoms: atoms, Count: 1, Example: rp, Job: job})
 					nCases++
 					nNonTrivial++
